@@ -206,11 +206,47 @@ func checkBreadthFirst(r *Run) {
 		r.Undecide("C17-R1: worker loop not found")
 	} else {
 		idxDriver, idxDec, idxSignal := -1, -1, -1
+		// closures of BreadthFirst that the loop calls (`expand := func(…) error { … plan.Driver(…) … }`) are read as
+		// part of the statement that calls them
+		closures := map[types.Object]*ast.FuncLit{}
+		ast.Inspect(fd.Body, func(n ast.Node) bool {
+			if as, ok := n.(*ast.AssignStmt); ok && len(as.Lhs) == len(as.Rhs) {
+				for i, l := range as.Lhs {
+					if id, ok := l.(*ast.Ident); ok {
+						if fl, ok := ast.Unparen(as.Rhs[i]).(*ast.FuncLit); ok {
+							closures[info.ObjectOf(id)] = fl
+						}
+					}
+				}
+			}
+			return true
+		})
+		var callsThrough func(n ast.Node, pred func(c *ast.CallExpr) bool, depth int) bool
+		callsThrough = func(n ast.Node, pred func(c *ast.CallExpr) bool, depth int) bool {
+			found := false
+			ast.Inspect(n, func(m ast.Node) bool {
+				c, ok := m.(*ast.CallExpr)
+				if !ok || found {
+					return !found
+				}
+				if pred(c) {
+					found = true
+					return false
+				}
+				if id, ok := ast.Unparen(c.Fun).(*ast.Ident); ok && depth < 2 {
+					if fl := closures[info.Uses[id]]; fl != nil && callsThrough(fl.Body, pred, depth+1) {
+						found = true
+					}
+				}
+				return !found
+			})
+			return found
+		}
 		for i, st := range workerLoop.Body.List {
-			if stmtHasCall(st, func(c *ast.CallExpr) bool {
+			if callsThrough(st, func(c *ast.CallExpr) bool {
 				sel, ok := c.Fun.(*ast.SelectorExpr)
 				return ok && sel.Sel.Name == "Driver"
-			}) && idxDriver < 0 {
+			}, 0) && idxDriver < 0 {
 				idxDriver = i
 			}
 			if isCounterAdd(st, "-1") {
@@ -999,11 +1035,14 @@ func checkTrunkWrites(r *Run) {
 				})
 				ast.Inspect(fd.Body, func(n ast.Node) bool {
 					var lhs []ast.Expr
+					how := ""
 					switch x := n.(type) {
 					case *ast.AssignStmt:
 						lhs = x.Lhs
+						how = x.Tok.String()
 					case *ast.IncDecStmt:
 						lhs = []ast.Expr{x.X}
+						how = x.Tok.String()
 					default:
 						return true
 					}
@@ -1038,7 +1077,8 @@ func checkTrunkWrites(r *Run) {
 						if !viaAncestor {
 							continue
 						}
-						construct := "PathSegment." + fv.Name() + "@" + funcDeclName(fd)
+						// keyed by what is done to the ancestors' field, not by the private function that does it
+						construct := "PathSegment." + fv.Name() + "@trunk" + how
 						if isAtomicType(fv.Type()) || hasSync {
 							r.Pass("C17-R4-shared-write", construct, l.Pos(), "ancestor field is atomic or the type carries a lock")
 						} else if reason, ok := r.InTable(tbl, "c17_shared_writes", construct); ok {
